@@ -11,6 +11,7 @@ import re
 from vlib.facts import kids, strip, walk, is_call, call_args, call_object, callee, render, literal
 from vlib.cfg import write_target
 from vlib.work import AnalysisBroken
+from vlib.flow import lex_keys
 
 UNITS = ["src/occa/internal/core/memoryPool.cpp", "src/core/memoryPool.cpp"]
 MP = "occa::modeMemoryPool_t::"
@@ -99,6 +100,20 @@ def run(ctx):
     nr = prog.fn(MP + "numReservations")
     rets = [n for n in nr.walk() if n["k"] == "ReturnStmt"]
     ok = len(rets) == 1 and "this->reservations.size()" in render(rets[0], False)
+    cmpf = [f for f in prog.funcs.values() if f.q == "occa::modeMemoryPool_t::compare::operator()"]
+    td = prog.typedefs.get("occa::modeMemoryPool_t::reservationSet")
+    if len(cmpf) != 1 or td is None:
+        raise AnalysisBroken("reservation set comparator / typedef vanished")
+    try:
+        keys = lex_keys(cmpf[0])
+    except ValueError as e:
+        raise AnalysisBroken("reservation comparator is not a recognised lexicographic comparison: %s" % e)
+    multi = td["ct"].startswith("std::multiset<")
+    okc = multi or (bool(keys) and keys[-1][0] == "$")
+    R.ob("C04-R3", okc, cmpf[0].q, "set keeps every live reservation: distinct reservations never compare equivalent", "%s:%d" % (cmpf[0].relfile, cmpf[0].d["line"]),
+         ("comparator keys %s end with the object identity" % keys) if okc else
+         "comparator keys %s do not end with the object identity: a slice/cast/second reservation with equal keys is dropped by std::set::emplace while `reserved` and the ring count it - "
+         "numReservations() and the later erase(find()) no longer match the live reservations" % keys)
     R.ob("C04-R3", ok, nr.q, "numReservations:set size", "%s:%d" % (nr.relfile, nr.d["line"]), "numReservations() returns reservations.size()")
     hnr = prog.fn("occa::memoryPool::numReservations")
     ok = any(is_call(c) and callee(c) == MP + "numReservations" for c in hnr.walk())
